@@ -149,6 +149,9 @@ func genScript(r *rng.R, tier string) corr.Case {
 		maxEv += 10
 	}
 	lines := []string{fmt.Sprintf("new %s %d %d", variant, rw, prime)}
+	if rw == 10 && r.Intn(3) == 0 {
+		lines[0] = fmt.Sprintf("new %s d %d", variant, prime) // NewSemMap() without WithRwRatio: DefaultRWRatio
+	}
 	s := newSim(rw)
 	used := map[int]bool{}
 	fresh := func() int {
@@ -438,6 +441,7 @@ func fixedCases() []corr.Case {
 		mk("wide-one-shard", "new wide 3 1", "acqR 1 i-3", "acqW 2 i-3", "acqR 3 i4", "rel 1", "who", "rel 2", "rel 3", "entries"),
 		mk("default-prime", "new wide 10 0", "acqW 1 i211", "acqR 2 i0", "acqR 3 i211", "who", "entries", "rel 1", "who", "rel 2", "rel 3", "entries"),
 		mk("reinit", "new single 2 0", "acqW 1 i0", "acqR 2 i0", "new single 2 0", "acqR 2 i0", "who", "entries"),
+		mk("default-ratio", "new single d 0", "acqR 1 i0", "acqR 2 i0", "acqR 3 i0", "acqR 4 i0", "acqR 5 i0", "acqR 6 i0", "acqR 7 i0", "acqR 8 i0", "acqR 9 i0", "acqR 10 i0", "acqR 11 i0", "acqW 12 i0", "inside i0", "who", "state i0"),
 		mk("drain", "new single 2 0", "acqR 1 i0", "acqR 2 i0", "acqW 3 i0", "rel 1", "rel 2", "rel 3", "entries", "state i0"),
 	}
 }
